@@ -332,6 +332,24 @@ def order(sx, op, a, b, st, node):
         return [(st, lex(0), None)]
     if isinstance(ta, V._None) or isinstance(tb, V._None):
         return [(st, None, Exc("TypeError"))]
+    if (isinstance(ta, V._Json) and isinstance(tb, num)) or (isinstance(tb, V._Json) and isinstance(ta, num)):
+        # a JSON value against a number: exact for a JSON integer, some answer for float / bool, TypeError for anything else
+        j = J()
+        jv = a if isinstance(ta, V._Json) else b
+        k = j["kind"](jv.term)
+        outs = []
+        s1 = st.fork().assume(k == JINT)
+        if sx.spec_mode or sx.feasible(s1):
+            ji = j["int"](jv.term)
+            outs.append((s1, mk(ji, sx.num(b)) if jv is a else mk(sx.num(a), ji), None))
+        if not sx.spec_mode:
+            s2 = st.fork().assume(z3.Or(k == JFLOAT, k == JBOOL))
+            if sx.feasible(s2):
+                outs.append((s2, z3.Bool(fresh_name("jcmp")), None))
+            s3 = st.fork().assume(z3.Not(z3.Or(k == JINT, k == JFLOAT, k == JBOOL)))
+            if sx.feasible(s3):
+                outs.append((s3, None, Exc("TypeError")))
+        return outs
     if isinstance(ta, V._Json) or isinstance(tb, V._Json):
         outs = [(st.fork(), z3.Bool(fresh_name("jcmp")), None), (st.fork(), None, Exc("TypeError"))]
         return outs
